@@ -188,5 +188,13 @@ def generate_jaqal_value(val):
         or isinstance(val, AnnotatedValue)
     ):
         return val.name
-    elif isinstance(val, float) or isinstance(val, int):
+    elif isinstance(val, float):
+        text = str(val)
+        if "e" in text and "." not in text:
+            # The Jaqal lexer only reads a floating point number with a
+            # decimal point: 1e-06 must be written 1.0e-06.
+            mantissa, exponent = text.split("e")
+            text = f"{mantissa}.0e{exponent}"
+        return text
+    elif isinstance(val, int):
         return str(val)
